@@ -5,14 +5,17 @@
 # (3) demo passes without it.
 ID="$1"; shift
 W=/tmp/seed/$ID
+# deliverables in seed_out/ or, for two-property agents, in seed_out/$SUB/ (env SUB)
+O=seed_out${SUB:+/$SUB}
 export CARGO_TARGET_DIR=$W/target CARGO_NET_OFFLINE=true
 cd $W || exit 2
-git checkout -q -- . && git apply seed_out/patch.diff || { echo "$ID: patch does not apply to HEAD"; exit 2; }
+git checkout -q -- . && git apply $O/patch.diff || { echo "$ID: patch does not apply to HEAD"; exit 2; }
 S=$(cargo test --workspace --offline --lib --bins --tests 2>&1 | awk '/^test result/ {p+=$4; f+=$6} END {print "passed=" p " failed=" f}')
-mkdir -p tests && cp seed_out/demo.rs tests/seed_demo.rs
-cargo test --offline --test seed_demo "$@" >/tmp/seed/$ID.with.log 2>&1; A=$?
-git apply -R seed_out/patch.diff
-cargo test --offline --test seed_demo "$@" >/tmp/seed/$ID.without.log 2>&1; B=$?
-git apply seed_out/patch.diff
+mkdir -p tests && cp $O/demo.rs tests/seed_demo.rs
+cargo test --offline --test seed_demo "$@" >/tmp/seed/$ID${SUB:+.$SUB}.with.log 2>&1; A=$?
+git apply -R $O/patch.diff
+cargo test --offline --test seed_demo "$@" >/tmp/seed/$ID${SUB:+.$SUB}.without.log 2>&1; B=$?
+git apply $O/patch.diff
 rm -rf tests
-echo "$ID suite_with_change: $S | demo_with_change_exit=$A (want != 0) | demo_without_change_exit=$B (want 0)"
+git checkout -q -- .
+echo "$ID${SUB:+/$SUB} suite_with_change: $S | demo_with_change_exit=$A (want != 0) | demo_without_change_exit=$B (want 0)"
